@@ -1,28 +1,30 @@
 import KV.Proofs.Evm
+import KV.Proofs.EvmFrame
 import KV.Proofs.EvmJump
 import KV.Proofs.EvmWord
 /-!
 # C10 — KVM executes bytecode with reference EVM semantics and never crashes (partial)
 
-Theorems about the single-frame model `KV.Evm` (`KV/Model/Evm.lean`), which the harness
-`harness/overlay/kvm/c10_test.go` ties to `/repo/kvm` (string-equal results incl. gas left, both
-instruction sets, plain and static call) and, independently, to go-ethereum v1.9.15.
+Theorems about the model `KV.Evm` (`KV/Model/Evm.lean`): the interpreter loop with nested CALL /
+STATICCALL frames through the wrapper `callFrame` (`KVM.Call` / `StaticCall`), and `createFrame`
+(`KVM.create`). The harness `harness/overlay/kvm/c10_test.go` ties it to `/repo/kvm` (string-equal
+results incl. gas left and the whole world, both instruction sets, plain / static / nested / create)
+and, independently, to go-ethereum v1.9.15.
 
-Proved here, for every code, input, environment, storage and gas:
-1. `table_consistent*` – the jump tables: stack limits = `minStack/maxStack` of the arities, the
-   arities are the ones the semantics uses, state-modifying kinds are flagged `writes`, the
-   `halts/jumps/reverts/returns/writes` flags sit on the intended opcodes only;
-2. `stack_bound` – the stack never exceeds 1024 items and no operation pops more than there is;
-3. `run_total_gas` – the frame ends with a result or an error value (never the fuel error) and
-   `gasLeft ≤ gas`; every continuing step strictly decreases the gas;
-4. `static_no_write` – with `readOnly` storage and logs are unchanged whatever the code;
-5. `revert_no_change` – a frame that does not end with success returns the original storage, no logs;
-6. `jumpdest_correct` – `validJumpdest` ⇔ the byte is `JUMPDEST` and is not inside push data;
-7. word-level specifications of `SDIV/SMOD/SIGNEXTEND/SAR/BYTE/ADDMOD/MULMOD/EXP`.
+Proved, for every code of every contract, input, environment, world and gas:
+1. `table_consistent*` – the jump tables (see also `KV/Props/C10Gen.lean`: equal to the regenerated ones);
+2. `stack_bound`, `stack_no_underflow` – every frame: stack ≤ 1024, operands present;
+3. `run_total_gas`, `step_gas_decreases` – every frame at every depth ends with a result or an error
+   value and hands back at most the gas given (nested calls included);
+4. `static_propagates`, `static_step`, `static_no_write` – a STATICCALL'd frame and every frame below
+   it leave storage, code, nonces, balances and logs of every account unchanged;
+5. `failed_frame_reverts`, `revert_no_change` – a frame that ends in REVERT / error leaves the world
+   exactly as before; `depth_limit`, `depth_1024_runs`; `code_size_limit`, `code_too_large_fails`;
+6. `jumpdest_correct`, `jump_lands_on_jumpdest`, `pc_at_instr_start`;
+7. integer specifications of `EXP, SDIV, SMOD, ADDMOD, MULMOD, BYTE, SIGNEXTEND, SAR`.
 
-Not carried (differential only): nested frames (`CALL*`, `CREATE*`), account-reading opcodes, exact
-dynamic gas of the call/create family, equality of the hand-written `opInfo` with the Go tables
-(to be closed by the bridge theorem against the regenerated table).
+Not carried (differential only): `CALLCODE`/`DELEGATECALL`/`CREATE*` opcodes, precompiles,
+account-reading opcodes, `RETURNDATA*`, refunds.
 -/
 namespace KV.Evm
 
@@ -37,24 +39,16 @@ theorem table_consistent_stack (post : Bool) (op : UInt8) (i : OpInfo) (h : opIn
     i.minStack = i.pops ∧ i.maxStack = 1024 + i.pops - i.pushes ∧ i.pushes ≤ i.pops + 1 ∧
     (i.kind.isUnsupported = false → i.kind.pops = i.pops ∧ i.kind.pushes = i.pushes) ∧
     i.kind.wf = true ∧ (i.kind.modifies = true → i.writes = true) := by
-  have e := entryOK_of_opInfo h
-  simp only [entryOK, Bool.and_eq_true, beq_iff_eq, decide_eq_true_eq, Bool.or_eq_true, Bool.not_eq_true', and_assoc] at e
-  obtain ⟨h1, h2, h3, h4, h5, h6, _⟩ := e
-  refine ⟨h1, h2, h3, ?_, h5, ?_⟩
-  · intro hu; rcases h4 with h4 | h4
-    · rw [hu] at h4; cases h4
-    · exact h4
-  · intro hm; rcases h6 with h6 | h6
-    · rw [hm] at h6; cases h6
-    · exact h6
+  obtain ⟨h1, h2, h3, h4, h5, h6, _⟩ := entry_facts h
+  exact ⟨h1, h2, h3, h4, h5, h6⟩
 
 /-- the two instruction sets differ exactly by CHAINID (0x46): undefined before Galaxias -/
 theorem table_sets_differ : setsDiffer = true := setsDiffer_ok
 
-/-! ## (2) stack bound -/
+/-! ## (2) stack bound (every frame, whatever the nested calls do) -/
 
 /-- one step: the operation finds its operands (no underflow), and the stack stays within 1024 -/
-theorem step_stack {env : Env} {s s' : State} (h : step env s = .next s') :
+theorem step_stack {sub : Sub} {env : Env} {s s' : State} (h : step sub env s = .next s') :
     ∃ i, opInfo env.post (getOp env.code s.pc) = some i ∧ i.pops ≤ s.stack.length ∧
       s'.stack.length + i.pops = s.stack.length + i.pushes ∧ s'.stack.length ≤ 1024 := by
   obtain ⟨x⟩ := step_next_inv h
@@ -71,156 +65,157 @@ theorem step_stack {env : Env} {s s' : State} (h : step env s = .next s') :
   · rw [x.hstack, List.length_append, List.length_drop, hlen, hq]; omega
   · rw [x.hstack, List.length_append, List.length_drop, hlen, hq]; omega
 
-/-- states reachable from `s` by continuing steps -/
-inductive Reach (env : Env) (s : State) : State → Prop
-  | refl : Reach env s s
-  | step {t u : State} : Reach env s t → step env t = .next u → Reach env s u
+/-- states reachable from `s` by continuing steps of one frame -/
+inductive Reach (sub : Sub) (env : Env) (s : State) : State → Prop
+  | refl : Reach sub env s s
+  | step {t u : State} : Reach sub env s t → step sub env t = .next u → Reach sub env s u
 
 /-- **stack_bound**: in every run, for every code, the stack never exceeds 1024 items … -/
-theorem stack_bound {env : Env} {s t : State} (h0 : s.stack.length ≤ 1024) (h : Reach env s t) :
+theorem stack_bound {sub : Sub} {env : Env} {s t : State} (h0 : s.stack.length ≤ 1024) (h : Reach sub env s t) :
     t.stack.length ≤ 1024 := by
   induction h with
   | refl => exact h0
   | step _ hs _ => obtain ⟨_, _, _, _, hb⟩ := step_stack hs; exact hb
 
 /-- … and never underflows: whenever an operation is executed its operands are on the stack -/
-theorem stack_no_underflow {env : Env} {s t u : State} (_h : Reach env s t) (hs : step env t = .next u) :
+theorem stack_no_underflow {sub : Sub} {env : Env} {s t u : State} (_h : Reach sub env s t)
+    (hs : step sub env t = .next u) :
     ∃ i, opInfo env.post (getOp env.code t.pc) = some i ∧ i.pops ≤ t.stack.length := by
   obtain ⟨i, hi, hp, _, _⟩ := step_stack hs
   exact ⟨i, hi, hp⟩
 
-theorem stack_bound_run {env : Env} {storage : Storage} {gas : Nat} {t : State}
-    (h : Reach env (initState storage gas) t) : t.stack.length ≤ 1024 :=
+theorem stack_bound_run {sub : Sub} {env : Env} {w : World} {gas : Nat} {t : State}
+    (h : Reach sub env (initState w gas) t) : t.stack.length ≤ 1024 :=
   stack_bound (by simp [initState]) h
 
 /-! ## (3) termination and gas -/
 
-/-- every continuing step costs at least one unit of gas -/
-theorem step_gas_lt {env : Env} {s s' : State} (h : step env s = .next s') : s'.gas < s.gas := by
-  obtain ⟨x⟩ := step_next_inv h
-  have e := entryOK_of_opInfo x.hinfo
-  simp only [entryOK, Bool.and_eq_true, beq_iff_eq, decide_eq_true_eq, Bool.or_eq_true, Bool.not_eq_true', and_assoc] at e
-  obtain ⟨_, _, _, _, _, _, _, _, _, _, _, _, hpaid, _⟩ := e
-  have hg := x.hgas
-  have hc := x.hcharge
-  rw [x.hgas']
-  rcases hpaid with (hpaid | hpaid) | hpaid
-  · omega
-  · exact absurd x.hexec (exec_stops hpaid)
-  · obtain ⟨hk, hd⟩ := hpaid
-    have hdyn := x.hdyn
-    simp only [dynGasOf, hd, if_true] at hdyn
-    have := dynGas_paid hk hdyn
-    have hch : 1 ≤ chargeOf x.info env.post x.dynCost := by
-      simp only [chargeOf, hd, if_true]; split <;> omega
-    omega
+/-- every continuing step of a frame at any depth costs at least one unit of gas (a nested call
+hands back at most what it was given, which the caller has paid for) -/
+theorem step_gas_decreases (t : TxEnv) (n : Nat) {env : Env} {s s' : State}
+    (h : step (callFrame t n) env s = .next s') : s'.gas < s.gas :=
+  step_gas_lt (callFrame_gas t n) h
 
-theorem runLoop_gas (env : Env) : ∀ (fuel : Nat) (s : State), s.gas < fuel →
-    (runLoop env fuel s).status ≠ .err .fuel ∧ (runLoop env fuel s).final.gas ≤ s.gas := by
-  intro fuel
-  induction fuel with
-  | zero => intro s h; omega
-  | succ f ih =>
-    intro s h
-    simp only [runLoop]
-    split
-    · rename_i hh hs
-      exact ⟨step_halt_status hs, (step_halt_inv hs).1⟩
-    · rename_i s' hs
-      have hlt := step_gas_lt hs
-      obtain ⟨a, b⟩ := ih s' (by omega)
-      exact ⟨a, by omega⟩
+/-- **run_total_gas**: `KVM.Call` / `StaticCall` at every depth end with a result or an error value
+(the fuel `gas + 1` of each frame is never exhausted) and hand back at most the gas given -/
+theorem run_total_gas (t : TxEnv) (n : Nat) (w : World) (req : CallReq) :
+    (callFrame t n w req).status ≠ .err .fuel ∧ (callFrame t n w req).gasLeft ≤ req.gas :=
+  ⟨callFrame_nofuel t n w req, callFrame_gas t n w req⟩
 
-/-- **run_total_gas**: the frame always ends with a result or an error value (the fuel `gas + 1` is
-never exhausted), and the gas handed back does not exceed the gas given -/
-theorem run_total_gas (env : Env) (storage : Storage) (gas : Nat) :
-    (call env storage gas).status ≠ .err .fuel ∧ (call env storage gas).gasLeft ≤ gas := by
-  unfold call run
-  split
-  · simp
-  · obtain ⟨a, b⟩ := runLoop_gas env (gas + 1) (initState storage gas) (by simp [initState])
-    simp only [initState] at b
-    unfold finish
-    split <;> rename_i hst
-    · exact ⟨by simp, b⟩
-    · exact ⟨by simp, b⟩
-    · refine ⟨?_, by simp⟩
-      intro hc; injection hc with hc; subst hc; exact a hst
-    · exact ⟨by simp, by simp⟩
+/-! ## (4) static calls -/
 
-/-! ## (4) static call -/
+/-- **static_propagates**: a STATICCALL'd frame, and every frame below a frame whose interpreter is
+read-only (calls without value), cannot change storage, code, nonces, balances or logs, whatever the
+code of any contract involved.  (`ObsEq`: every account reads the same, logs are the same; the only
+difference allowed is that an absent account may have become an empty object — the `touch`.) -/
+theorem static_propagates (t : TxEnv) (n : Nat) (w : World) (req : CallReq)
+    (h : req.static = true ∨ (req.readOnly = true ∧ req.value = 0)) :
+    ObsEq w (callFrame t n w req).world :=
+  callFrame_static t n w req h
 
-theorem step_static {env : Env} {s s' : State} (hro : env.readOnly = true) (h : step env s = .next s') :
-    s'.storage = s.storage ∧ s'.logs = s.logs := by
-  obtain ⟨x⟩ := step_next_inv h
-  obtain ⟨_, _, _, _, _, h6⟩ := table_consistent_stack _ _ _ x.hinfo
-  have hw : x.info.writes = false := by
-    have := x.hro; rw [hro] at this; simpa using this
-  have hm : x.info.kind.modifies = false := by
-    cases hmm : x.info.kind.modifies
-    · rfl
-    · rw [h6 hmm] at hw; cases hw
-  have := exec_frame hm x.hexec
-  simpa [preExec] using this
+/-- inside a read-only frame a nested CALL / STATICCALL is handed a request that keeps the world
+unchanged: the flag is inherited and value transfers are refused before -/
+theorem static_step (t : TxEnv) (n : Nat) {env : Env} {s s' : State} (hro : env.readOnly = true)
+    (h : step (callFrame t n) env s = .next s') : ObsEq s.world s'.world :=
+  step_static (callFrame_static t n) hro h
 
-theorem runLoop_static (env : Env) (hro : env.readOnly = true) : ∀ (fuel : Nat) (s : State),
-    (runLoop env fuel s).final.storage = s.storage ∧ (runLoop env fuel s).final.logs = s.logs := by
-  intro fuel
-  induction fuel with
-  | zero => intro s; simp [runLoop]
-  | succ f ih =>
-    intro s
-    simp only [runLoop]
-    split
-    · rename_i hh hs
-      have := step_halt_inv hs
-      exact ⟨this.2.1, this.2.2.1⟩
-    · rename_i s' hs
-      obtain ⟨a, b⟩ := step_static hro hs
-      obtain ⟨c, d⟩ := ih s'
-      exact ⟨by rw [c, a], by rw [d, b]⟩
+/-- **static_no_write** (top level): `KVM.StaticCall` leaves storage and logs of every account alone -/
+theorem static_no_write (t : TxEnv) (w : World) (req : CallReq) (h : req.static = true) (a : Word) :
+    ((call t w req).world.get a).storage = (w.get a).storage ∧ ((call t w req).world.get a).balance = (w.get a).balance ∧
+    (call t w req).world.logs = w.logs := by
+  have := static_propagates t (1025 - 0) w req (Or.inl h)
+  unfold call callAtDepth
+  exact ⟨by rw [this.1], by rw [this.1], this.2⟩
 
-/-- **static_no_write**: with `readOnly` the storage and the logs are unchanged whatever the code -/
-theorem static_no_write (env : Env) (storage : Storage) (gas fuel : Nat) (hro : env.readOnly = true) :
-    (run env storage gas fuel).storage = storage ∧ (run env storage gas fuel).logs = [] := by
-  unfold run
-  split
-  · simp
-  · obtain ⟨a, b⟩ := runLoop_static env hro fuel (initState storage gas)
-    have a' : (runLoop env fuel (initState storage gas)).final.storage = storage := a
-    have b' : (runLoop env fuel (initState storage gas)).final.logs = [] := b
-    unfold finish
-    split <;> simp [a', b']
+/-! ## (5) failed frames, depth limit, code size limit -/
 
-/-! ## (5) failed frames -/
+/-- **failed_frame_reverts** (interpreter-level analogue of C09's `callFrame_failure_restores`, for
+the wrapper at every depth with the real interpreter inside): a frame that ends in REVERT or in an
+error leaves the world exactly as it was before the call (`RevertToSnapshot`) -/
+theorem failed_frame_reverts (t : TxEnv) (n : Nat) (w : World) (req : CallReq)
+    (h : (callFrame t n w req).status ≠ .ok) : (callFrame t n w req).world = w :=
+  callFrame_failed t n w req h
 
-/-- **revert_no_change**: a frame that ends in REVERT or in an error returns the original storage
-and no logs (the `RevertToSnapshot` of `KVM.Call`) -/
-theorem revert_no_change (env : Env) (storage : Storage) (gas fuel : Nat)
-    (h : (run env storage gas fuel).status ≠ .ok) :
-    (run env storage gas fuel).storage = storage ∧ (run env storage gas fuel).logs = [] := by
-  unfold run at h ⊢
-  split
-  · rename_i hc; simp [hc] at h
-  · rename_i hc
-    simp only [hc] at h
-    unfold finish at h ⊢
-    split <;> rename_i hst
-    · simp [hst] at h
-    · simp
-    · simp
-    · simp
+theorem revert_no_change (t : TxEnv) (w : World) (req : CallReq) (h : (call t w req).status ≠ .ok) :
+    (call t w req).world = w := callFrame_failed t _ w req h
 
-/-- an error (not a revert) also consumes all gas -/
-theorem error_consumes_gas (env : Env) (storage : Storage) (gas fuel : Nat) (c : ErrClass)
-    (h : (run env storage gas fuel).status = .err c) : (run env storage gas fuel).gasLeft = 0 := by
-  unfold run at h ⊢
-  split
-  · rename_i hc; simp [hc] at h
-  · rename_i hc
-    simp only [hc] at h
-    unfold finish at h ⊢
-    split <;> rename_i hst <;> simp [hst] at h ⊢
+/-- an error other than the two checks made before the frame starts (depth, balance) consumes all gas -/
+theorem error_consumes_gas (t : TxEnv) (n : Nat) (w : World) (req : CallReq) (c : ErrClass)
+    (h : (callFrame t n w req).status = .err c) (hd : c ≠ .depth) (hb : c ≠ .balance) :
+    (callFrame t n w req).gasLeft = 0 := callFrame_error_gas t n w req c h hd hb
+
+/-- **depth_limit**: a call issued at depth > 1024 (`kvm.depth > CallCreateDepth`) fails with the
+depth error without executing anything: world and gas come back untouched -/
+theorem depth_limit (t : TxEnv) (d : Nat) (hd : d > 1024) (w : World) (req : CallReq) :
+    callAtDepth t d w req = { world := w, gasLeft := req.gas, status := .err .depth, ret := [] } := by
+  unfold callAtDepth
+  have : 1025 - d = 0 := by omega
+  rw [this]; rfl
+
+/-- … and depth 1024 is still served: the wrapper there is a real frame (`callFrame t 1`) -/
+theorem depth_1024_runs (t : TxEnv) : callAtDepth t 1024 = callFrame t 1 := rfl
+
+theorem finishCreate_ok (snap : World) (addr : Word) (h : Halt) (hs : (finishCreate snap addr h).status = .ok) :
+    (finishCreate snap addr h).ret.length ≤ maxCodeSize ∧
+    ((finishCreate snap addr h).world.get addr).code = (finishCreate snap addr h).ret := by
+  unfold finishCreate at hs ⊢
+  cases hst : h.status <;> simp only [hst] at hs ⊢
+  case ok =>
+    unfold deposit at hs ⊢
+    by_cases hm : h.ret.length > maxCodeSize
+    · simp [hm] at hs
+    · by_cases hg : h.final.gas < h.ret.length * createDataGas
+      · simp [hm, hg] at hs
+      · simp only [hm, hg, if_false]
+        refine ⟨Nat.le_of_not_gt hm, ?_⟩
+        rw [get_set]; simp
+  all_goals (rw [settle_status, hst] at hs; cases hs)
+
+theorem finishCreate_maxcode (snap : World) (addr : Word) (h : Halt)
+    (hs : (finishCreate snap addr h).status = .err .maxcode) :
+    (finishCreate snap addr h).world = snap ∧ (finishCreate snap addr h).gasLeft = 0 := by
+  unfold finishCreate at hs ⊢
+  cases hst : h.status <;> simp only [hst] at hs ⊢
+  case ok =>
+    unfold deposit at hs ⊢
+    by_cases hm : h.ret.length > maxCodeSize
+    · simp [hm]
+    · by_cases hg : h.final.gas < h.ret.length * createDataGas
+      · simp [hm, hg]
+      · simp [hm, hg] at hs
+  all_goals
+    (have hf := settle_failed snap h (by rw [hs]; simp)
+     exact ⟨hf.1, hf.2 _ hs⟩)
+
+/-- **code_size_limit**: a successful creation deploys at most `MaxCodeSize` (39231) bytes, and the
+deployed code is what the init code returned -/
+theorem code_size_limit (t : TxEnv) (w : World) (caller addr : Word) (init : Bytes) (gas value : Nat)
+    (h : (createFrame t w caller addr init gas value).status = .ok) :
+    (createFrame t w caller addr init gas value).ret.length ≤ maxCodeSize ∧
+    ((createFrame t w caller addr init gas value).world.get addr).code = (createFrame t w caller addr init gas value).ret := by
+  unfold createFrame at h ⊢
+  by_cases hb : (w.get caller).balance < value
+  · rw [if_pos hb] at h; simp at h
+  rw [if_neg hb] at h ⊢
+  by_cases hc : ((bumpNonce w caller).get addr).nonce ≠ 0 ∨ ¬ ((bumpNonce w caller).get addr).code.isEmpty
+  · rw [if_pos hc] at h; simp at h
+  rw [if_neg hc] at h ⊢
+  exact finishCreate_ok _ _ _ h
+
+/-- a creation that returns more than `MaxCodeSize` bytes fails, consumes all gas and leaves only
+the caller's nonce bump (the snapshot) -/
+theorem code_too_large_fails (t : TxEnv) (w : World) (caller addr : Word) (init : Bytes) (gas value : Nat)
+    (h : (createFrame t w caller addr init gas value).status = .err .maxcode) :
+    (createFrame t w caller addr init gas value).world = bumpNonce w caller ∧
+    (createFrame t w caller addr init gas value).gasLeft = 0 := by
+  unfold createFrame at h ⊢
+  by_cases hb : (w.get caller).balance < value
+  · rw [if_pos hb] at h; simp at h
+  rw [if_neg hb] at h ⊢
+  by_cases hc : ((bumpNonce w caller).get addr).nonce ≠ 0 ∨ ¬ ((bumpNonce w caller).get addr).code.isEmpty
+  · rw [if_pos hc]; exact ⟨rfl, rfl⟩
+  rw [if_neg hc] at h ⊢
+  exact finishCreate_maxcode _ _ _ h
 
 /-! ## (6) jump destinations -/
 
@@ -230,6 +225,55 @@ the linear scan from position 0 (`InstrStart` / `InsidePush`, `KV/Proofs/EvmJump
 theorem jumpdest_correct (code : Bytes) (d : Nat) :
     validJumpdest code d = true ↔ d < U64 ∧ code[d]? = some 0x5b ∧ ¬ InsidePush code d :=
   validJumpdest_iff code d
+
+/-- **jump_lands_on_jumpdest**: after any step the program counter is either at the next
+instruction (past the immediate bytes of a PUSH) or — only for an opcode flagged `jumps`, i.e. JUMP /
+JUMPI — at a valid jump destination -/
+theorem jump_lands_on_jumpdest {sub : Sub} {env : Env} {s s' : State} (h : step sub env s = .next s') :
+    s'.pc = s.pc + 1 + pushLen (getOp env.code s.pc) ∨
+    (validJumpdest env.code s'.pc = true ∧
+      ∃ i, opInfo env.post (getOp env.code s.pc) = some i ∧ i.jumps = true) := by
+  obtain ⟨x⟩ := step_next_inv h
+  obtain ⟨_, _, _, _, _, _, _, hpl, hj, _⟩ := entry_facts x.hinfo
+  rcases exec_pc x.hexec with hp | ⟨hk, hv⟩
+  · left; rw [hpl]; exact hp
+  · right; exact ⟨hv, x.info, x.hinfo, by rw [hj x.hsup]; exact hk⟩
+
+theorem stop_at_zero (post : Bool) : ∃ i, opInfo post 0 = some i ∧ i.kind.stops = true := by
+  cases post <;> exact ⟨_, rfl, rfl⟩
+
+/-- **pc_at_instr_start** (run-level corollary): in every run the program counter only ever points
+at an instruction boundary of the linear scan — push data is never executed, and a JUMP / JUMPI
+lands only on a JUMPDEST that the analysis accepts -/
+theorem pc_at_instr_start {sub : Sub} {env : Env} {w : World} {gas : Nat} {t : State}
+    (h : Reach sub env (initState w gas) t) : InstrStart env.code t.pc := by
+  induction h with
+  | refl => exact InstrStart.zero
+  | @step t u _ hs ih =>
+    rcases jump_lands_on_jumpdest hs with hp | ⟨hv, _⟩
+    · rw [hp]
+      apply InstrStart.next ih
+      -- beyond the end of the code the opcode is STOP, which does not continue
+      rcases Nat.lt_or_ge t.pc env.code.length with hlt | hge
+      · exact hlt
+      · exfalso
+        obtain ⟨x⟩ := step_next_inv hs
+        have h0 : getOp env.code t.pc = 0 := by
+          unfold getOp; rw [List.getElem?_eq_none hge]; rfl
+        obtain ⟨i, hi, hst⟩ := stop_at_zero env.post
+        have hx := x.hinfo
+        rw [h0, hi] at hx
+        injection hx with hx
+        rw [hx] at hst
+        exact exec_stops hst x.hexec
+    · obtain ⟨_, hc, hni⟩ := (validJumpdest_iff _ _).mp hv
+      have hlt : u.pc < env.code.length := by
+        rcases Nat.lt_or_ge u.pc env.code.length with hlt | hge
+        · exact hlt
+        · rw [List.getElem?_eq_none hge] at hc; cases hc
+      rcases start_or_inside hlt u.pc 0 InstrStart.zero (Nat.zero_le _) (by omega) with hs' | hi
+      · exact hs'
+      · exact absurd hi hni
 
 /-! ## (7) word-level specifications -/
 
@@ -257,58 +301,64 @@ theorem byte_spec (th v : Word) : wbyte th v = if th < 32 then v / 256 ^ (31 - t
   · rw [Nat.pow_mul]
   · rfl
 
-/-- SIGNEXTEND, full statement (integer definition): proved only on instances below
-(`signextend_examples`), otherwise covered by the differential against KVM and geth -/
+/-- SIGNEXTEND (integer definition): the low `8(b+1)` bits read as a two's complement number -/
 def SignextendStatement : Prop :=
   ∀ (b x : Word), b < 32 → x < W →
     toInt (signextend b x) =
       (if x % 2 ^ (8 * (b + 1)) < 2 ^ (8 * (b + 1) - 1) then (x % 2 ^ (8 * (b + 1)) : Int)
        else (x % 2 ^ (8 * (b + 1)) : Int) - 2 ^ (8 * (b + 1)))
 
-/-- the part of `SignextendStatement` that is proved: byte indices above 31 leave the word alone,
-and the result keeps the low bits -/
-theorem signextend_partial (b x : Word) :
-    (31 < b → signextend b x = x) ∧
-    (b ≤ 31 → x % 2 ^ (8 * (b + 1)) < 2 ^ (8 * (b + 1) - 1) → signextend b x = x % 2 ^ (8 * (b + 1))) := by
-  unfold signextend
-  constructor
-  · intro h; rw [if_pos h]
-  · intro h1 h2; rw [if_neg (Nat.not_lt.mpr h1)]; simp only; rw [if_neg (Nat.not_le.mpr h2)]
+/-- **signextend_spec** -/
+theorem signextend_spec : SignextendStatement := by
+  intro b x hb _
+  rw [signextend_nat b x hb]
+  simp only [Int.natCast_emod, Int.natCast_pow]
+  rfl
 
-/-- SAR, full statement (floor division of the two's complement value by 2^s): proved on instances
-below, otherwise covered by the differential -/
+/-- SAR: floor division of the two's complement value by `2^s`, for every shift amount -/
 def SarStatement : Prop :=
   ∀ (s v : Word), v < W → toInt (wsar s v) = toInt v / (2 ^ s : Int)
 
-/-- the proved part of `SarStatement`: non-negative values shift like SHR, negative values are
-filled with ones once the shift reaches 256 -/
-theorem sar_partial (s v : Word) :
-    (isNeg v = false → wsar s v = if s ≥ 256 then 0 else v / 2 ^ s) ∧
-    (isNeg v = true → s ≥ 256 → wsar s v = W - 1) := by
-  unfold wsar
-  constructor
-  · intro h; rw [h]; simp
-  · intro h hs; rw [h]; simp [hs]
+/-- **sar_spec** -/
+theorem sar_int_spec : SarStatement := fun s v hv => sar_spec s v hv
 
 /-! ## non-vacuity: small programs and operands evaluated by the kernel -/
 
-def exEnv (code : Bytes) (ro : Bool := false) : Env :=
-  { code, input := [1, 2, 3], hash := fun _ => [], post := true, readOnly := ro, address := 0xa1, caller := 0xee,
-    origin := 0xee, callvalue := 0, gasprice := 7, coinbase := 0xcb, timestamp := 1, number := 2,
+def exT : TxEnv :=
+  { hash := fun _ => [], post := true, origin := 0xee, gasprice := 7, coinbase := 0xcb, timestamp := 1, number := 2,
     gaslimit := 3, chainid := 24 }
+def exWorld (code : Bytes) (codeB : Bytes := []) : World :=
+  { accts := [(0xee, { balance := 1000, nonce := 0, code := [], storage := [] }),
+              (0xa1, { balance := 10, nonce := 0, code := code, storage := [] }),
+              (0xb2, { balance := 0, nonce := 0, code := codeB, storage := [] })], logs := [] }
+def exReq (gas : Nat) (static : Bool := false) : CallReq :=
+  { static, readOnly := false, caller := 0xee, addr := 0xa1, input := [1, 2, 3], gas, value := 0 }
 -- PUSH1 2 PUSH1 3 ADD PUSH1 0 MSTORE PUSH1 32 PUSH1 0 RETURN
 def progAdd : Bytes := [0x60, 2, 0x60, 3, 0x01, 0x60, 0, 0x52, 0x60, 32, 0x60, 0, 0xf3]
-example : (call (exEnv progAdd) [] 1000).status = .ok ∧ (call (exEnv progAdd) [] 1000).ret = word32 5 ∧
-    (call (exEnv progAdd) [] 1000).gasLeft = 1000 - 24 := by decide
+example : (call exT (exWorld progAdd) (exReq 1000)).status = .ok ∧ (call exT (exWorld progAdd) (exReq 1000)).ret = word32 5 ∧
+    (call exT (exWorld progAdd) (exReq 1000)).gasLeft = 1000 - 24 := by decide
 -- PUSH1 7 PUSH1 1 SSTORE STOP : writes slot 1
 def progStore : Bytes := [0x60, 7, 0x60, 1, 0x55, 0x00]
-example : (call (exEnv progStore) [] 30000).storage = [(1, 7)] := by decide
-example : (call (exEnv progStore true) [] 30000).status = .err .wprot := by decide
-example : (call (exEnv progStore) [] 100).status = .err .oog ∧ (call (exEnv progStore) [] 100).storage = [] := by decide
+example : ((call exT (exWorld progStore) (exReq 30000)).world.get 0xa1).storage = [(1, 7)] := by decide
+example : (call exT (exWorld progStore) (exReq 30000 true)).status = .err .wprot := by decide
+example : (call exT (exWorld progStore) (exReq 100)).status = .err .oog ∧
+    ((call exT (exWorld progStore) (exReq 100)).world.get 0xa1).storage = [] := by decide
 -- jump into push data: PUSH1 4 JUMP PUSH1 0x5b STOP  (position 4 is the 0x5b inside the PUSH1)
-example : (call (exEnv [0x60, 4, 0x56, 0x60, 0x5b, 0x00]) [] 1000).status = .err .jump := by decide
+example : (call exT (exWorld [0x60, 4, 0x56, 0x60, 0x5b, 0x00]) (exReq 1000)).status = .err .jump := by decide
 example : validJumpdest [0x60, 4, 0x56, 0x5b, 0x00] 3 = true := by decide
 example : InsidePush [0x60, 0x5b] 1 := ⟨0, .zero, by decide, by decide, by decide⟩
+-- nested frames: A = (0 0 0 0 0xb2 GAS STATICCALL) PUSH1 0 MSTORE RETURN(0,32): B = progStore fails inside
+-- the static frame, A sees 0 and B's storage stays empty; with CALL (value 0) B's write succeeds
+def progStatic : Bytes := [0x60, 0, 0x60, 0, 0x60, 0, 0x60, 0, 0x60, 0xb2, 0x5a, 0xfa, 0x60, 0, 0x52, 0x60, 32, 0x60, 0, 0xf3]
+def progCall : Bytes := [0x60, 0, 0x60, 0, 0x60, 0, 0x60, 0, 0x60, 0, 0x60, 0xb2, 0x5a, 0xf1, 0x60, 0, 0x52, 0x60, 32, 0x60, 0, 0xf3]
+example : (call exT (exWorld progStatic progStore) (exReq 100000)).ret = word32 0 ∧
+    ((call exT (exWorld progStatic progStore) (exReq 100000)).world.get 0xb2).storage = [] := by decide
+example : (call exT (exWorld progCall progStore) (exReq 100000)).ret = word32 1 ∧
+    ((call exT (exWorld progCall progStore) (exReq 100000)).world.get 0xb2).storage = [(1, 7)] := by decide
+-- creation: init code RETURN(0, 2) deploys two zero bytes, 400 gas for the deposit
+example : (createFrame exT (exWorld []) 0xee 0x77 [0x60, 2, 0x60, 0, 0xf3] 1000 0).status = .ok ∧
+    ((createFrame exT (exWorld []) 0xee 0x77 [0x60, 2, 0x60, 0, 0xf3] 1000 0).world.get 0x77).code = [0, 0] ∧
+    (createFrame exT (exWorld []) 0xee 0x77 [0x60, 2, 0x60, 0, 0xf3] 1000 0).gasLeft = 1000 - 9 - 400 := by decide
 -- word-level instances
 example : sdiv (2 ^ 255) (W - 1) = 2 ^ 255 := by decide          -- MIN / -1 wraps
 example : toInt (sdiv (W - 7) 2) = -3 := by decide               -- truncation toward zero
